@@ -6,21 +6,25 @@ from ..core import sig_of
 
 LEVEL = "model_checking"
 LEVEL_TEXT = ("TLC checks on bounded instances of the handle/object specification (2 objects of a base and a derived type, 3-4 handle slots of "
-              "both static types, every constructor / assignment / destructor / explicit refInc-refDec code path, all admitted moved-from outcomes) "
-              "that the counts the operations maintain always equal creator + live handles + explicit references, that an object dies exactly in "
-              "the step releasing its last reference and exactly once per incarnation; a second model shows conservation and single destruction "
-              "for all interleavings of threads copying/dropping with atomic increments, and TLC refutes the same model with a load/store "
-              "increment (negative control, required). Binding: every transition of the complete state graphs of the 3-slot instances (slot types "
-              "BBD and BDD; thorough: also the 4-slot instance BBDD), all histories up to a budgeted length and seeded random walks are replayed "
-              "on the real IntrusivePtr/RefCountedObject under ASan+UBSan with use counts, destructor log, handle contents and comparisons "
-              "compared after every step; random 300-step executions over 6 slots / 4 objects and multi-threaded copy/drop bursts (also under "
-              "TSan) are validated by TLC trace specifications")
-LEVEL_NOTE = ("bounded: exhaustive parts use 2 objects x 3-4 slots, <= 1-2 outstanding explicit references; the concurrent model is checked for "
-              "3 threads x <= 3-4 operations, the real concurrent executions are sampled (not schedule-controlled) and judged at quiescent points "
-              "and by stamp order only; what a moved-from handle holds is left open (release / retain / swap) as long as the books balance, the "
-              "generation model uses the outcome TLC identified from a probe execution; two empty handles comparing equal is not constrained; "
-              "handle-vs-raw-pointer comparisons do not compile and are not part of the API; trusted: TLC, the driver's own bookkeeping of slots "
-              "and its destructor log, g++/libstdc++, ASan/UBSan/TSan")
+              "both static types, every constructor / assignment / destructor / explicit refInc-refDec code path, all admitted moved-from outcomes; "
+              "a second instance in which Derived objects own a member handle `next`, with cascading destruction and assignment of a handle from the "
+              "member of the very object it designates) that the counts the operations maintain always equal creator + live handles (pool and member) "
+              "+ explicit references, that an object dies exactly in the step releasing its last reference and exactly once per incarnation; a "
+              "further model shows conservation and single destruction for all interleavings of threads copying/dropping with atomic increments, "
+              "and TLC refutes the same model with a load/store increment (negative control, required). Binding: every transition of the complete "
+              "state graphs of the 3-slot instances (slot types BBD, BDD; thorough: also BBDD) and of the chain instance (2 slots, 2 member-owning "
+              "objects), all histories up to a budgeted length and seeded random walks are replayed on the real IntrusivePtr/RefCountedObject with "
+              "use counts, destructor log, handle and member contents and comparisons compared after every step - under ASan+UBSan with really "
+              "freed pointees (memory errors become crash events) and, for the chain instance, also without sanitizers on quarantined pointee "
+              "storage (early destruction shows as values); random 300-step executions over 6 slots / 4 objects and multi-threaded copy/drop "
+              "bursts (also under TSan) are validated by TLC trace specifications")
+LEVEL_NOTE = ("bounded: exhaustive parts use 2 objects x 2-4 slots, <= 1-2 outstanding explicit references, one member handle per Derived object "
+              "(chains of length 2, self loops and 2-cycles; longer chains only in the recorded random executions with 4 objects); the concurrent "
+              "model is checked for 3 threads x <= 3-4 operations, the real concurrent executions are sampled (not schedule-controlled) and judged "
+              "at quiescent points and by stamp order only; what a moved-from handle holds is left open (release / retain / swap) as long as the "
+              "books balance, the generation model uses the outcome TLC identified from a probe execution; two empty handles comparing equal is "
+              "not constrained; handle-vs-raw-pointer comparisons do not compile and are not part of the API; trusted: TLC, the driver's own "
+              "bookkeeping of slots and its destructor log, g++/libstdc++, ASan/UBSan/TSan")
 TECHNIQUE = ("TLA+ ADT specification + TLC invariants/action properties; TLC-generated transition cover and histories replayed on the real objects; "
              "TLC trace validation of recorded sequential and multi-threaded executions; negative-control model; sanitizers as crash/race events")
 SPEC = os.path.join(VERIF, "spec", "memory")
@@ -28,8 +32,10 @@ API = "IntrusivePtr"
 
 MUTATORS = {"New", "CreatorDrop", "RefInc", "RefDec", "DefaultCtor", "RawCtor", "RawAssign", "CopyCtor", "ConvCopyCtor", "MoveCtor",
             "ConvMoveCtor", "CopyAssign", "ConvCopyAssign", "MoveAssign", "ConvMoveAssign", "Dtor"}
-TRACE_META = {"slots": "BBBDDD", "objs": "BDBD", "maxexp": 3}
+MEMBER_ACTIONS = {"SetMember", "ClearMember", "CopyCtorFromMember", "CopyAssignFromMember", "MoveAssignFromMember"}
+TRACE_META = {"slots": "BBBDDD", "objs": "BDBD", "maxexp": 3, "members": True}
 KINDS = ["mc", "ma", "sm", "cmc", "cma"]
+WALK_CLASS = "src=member-of-dst-target,next=obj,last-ref,kills"      # cur = cur->next where cur held the last reference
 
 # One move of every code path, from states in which the admitted outcomes are observably different
 # (trace universe: slots 1-3 Base, 4-6 Derived; objects 1,3 Base, 2,4 Derived).  Input only: TLC
@@ -190,8 +196,9 @@ def replay_parallel(chk, exe, histories, tag, sig_prefix, isolate, meta, replay_
             rep["stderr_tail"] = mm["stderr"][-2500:]
         chk.violation(sig_of(sig_prefix, mm), what, rep)
     chk.cov["evaluations"] += n
-    chk.cov["crashes_in_replay"] = chk.cov.get("crashes_in_replay", 0) + sum(1 for _, mm in found if mm.get("kind") == "crash" or mm.get("later"))
-    return len(found), time.time() - t0
+    ncrash = sum(1 for _, mm in found if mm.get("kind") == "crash" or mm.get("later"))
+    chk.cov["crashes_in_replay"] = chk.cov.get("crashes_in_replay", 0) + ncrash
+    return len(found), time.time() - t0, ncrash
 
 
 def record_validate(chk, exe, executions_actions, tag, sig_prefix, isolate, meta):
@@ -329,15 +336,25 @@ def rand_actions(rnd, n, meta, policy=None):
     alive = [False] * (no + 1)
     creator = [0] * (no + 1)
     expl = [0] * (no + 1)
+    mem = [None] * (no + 1)               # member handle of live Derived objects: None (no member), 0, o
+    members = bool(meta.get("members"))
     acts = []
 
     def refs(o):
-        return creator[o] + expl[o] + sum(1 for x in h[1:] if x == o)
+        return creator[o] + expl[o] + sum(1 for x in h[1:] if x == o) + sum(1 for x in mem[1:] if x == o)
 
-    def settle():
-        for o in range(1, no + 1):
-            if alive[o] and refs(o) == 0:
-                alive[o] = False
+    def settle():                         # deaths, cascading through member handles
+        again = True
+        while again:
+            again = False
+            for o in range(1, no + 1):
+                if alive[o] and refs(o) == 0:
+                    alive[o] = False
+                    mem[o] = None
+                    again = True
+
+    def held(o):
+        return creator[o] or expl[o] or any(x == o for x in h[1:])
 
     def conv(s, t):
         return "" if slots[s - 1] == slots[t - 1] else "Conv"
@@ -357,8 +374,11 @@ def rand_actions(rnd, n, meta, policy=None):
                                "CopyAssign", "MoveAssign", "Dtor", "Bool", "Arrow", "Compare"])
             if name in ("CopyCtor", "MoveCtor", "CopyAssign", "MoveAssign") and s != t:
                 name = conv(s, t) + name
-            if name == "Compare":         # same-typed pairs only, see below
-                t = rnd.choice([x for x in S if slots[x - 1] == slots[s - 1]])
+            if members and rnd.random() < 0.25:
+                name = rnd.choice(sorted(MEMBER_ACTIONS))
+                acts.append({"a": name, "arg": {"o": max(o, 1), "t": t} if name == "SetMember" else {"o": max(o, 1)} if name == "ClearMember"
+                             else {"s": s, "t": t}})
+                continue
             arg = {"o": max(o, 1)} if name in ("New", "CreatorDrop", "RefInc", "RefDec") else \
                   {"s": s} if name in ("DefaultCtor", "Dtor", "Bool", "Arrow") else \
                   {"s": s, "o": o} if name in ("RawCtor", "RawAssign") else {"s": s, "t": t}
@@ -377,6 +397,13 @@ def rand_actions(rnd, n, meta, policy=None):
         if free and used: cands += [("CopyCtor", 3), ("MoveCtor", 3)]
         if used: cands += [("CopyAssign", 3), ("MoveAssign", 3), ("RawAssign", 2.5), ("Dtor", 3.5 if len(used) > ns // 2 else 1.5),
                            ("Bool", 0.7), ("Arrow", 0.7), ("Compare", 1.2)]
+        owners = [o for o in live if mem[o] is not None and held(o)]
+        via = [t for t in used if h[t] and mem[h[t]] is not None]           # handles designating an object with a member
+        usedB = [s for s in used if slots[s - 1] == "B"]
+        freeB = [s for s in free if slots[s - 1] == "B"]
+        if members and owners and used: cands += [("SetMember", 3), ("ClearMember", 0.7)]
+        if members and via and freeB: cands += [("CopyCtorFromMember", 1)]
+        if members and via and usedB: cands += [("CopyAssignFromMember", 2.5), ("MoveAssignFromMember", 2.5)]
         tot = sum(w for _, w in cands)
         x = rnd.random() * tot
         for name, w in cands:
@@ -385,6 +412,7 @@ def rand_actions(rnd, n, meta, policy=None):
                 break
         if name == "New":
             o = rnd.choice(dead); alive[o] = True; creator[o] = 1; expl[o] = 0
+            mem[o] = 0 if members and objs[o - 1] == "D" else None
             a = {"a": name, "arg": {"o": o}}
         elif name == "CreatorDrop":
             o = rnd.choice([o for o in live if creator[o]]); creator[o] = 0
@@ -436,16 +464,35 @@ def rand_actions(rnd, n, meta, policy=None):
         elif name == "Dtor":
             s = rnd.choice(used); h[s] = None
             a = {"a": name, "arg": {"s": s}}
+        elif name == "SetMember":
+            o = rnd.choice(owners); t = rnd.choice(used); mem[o] = h[t]
+            a = {"a": name, "arg": {"o": o, "t": t}}
+        elif name == "ClearMember":
+            o = rnd.choice(owners); mem[o] = 0
+            a = {"a": name, "arg": {"o": o}}
+        elif name == "CopyCtorFromMember":
+            s = rnd.choice(freeB); t = rnd.choice(via); h[s] = mem[h[t]]
+            a = {"a": name, "arg": {"s": s, "t": t}}
+        elif name in ("CopyAssignFromMember", "MoveAssignFromMember"):
+            walk = [t for t in via if t in usedB]
+            if walk and rnd.random() < 0.7:
+                s = t = rnd.choice(walk)  # cur = cur->next
+            else:
+                s, t = rnd.choice(usedB), rnd.choice(via)
+            x, old = h[t], h[s]
+            h[s] = mem[x]
+            if name == "MoveAssignFromMember":
+                out = pol.get("ma", "release")
+                if out == "release": mem[x] = 0
+                elif out == "swap": mem[x] = old
+            a = {"a": name, "arg": {"s": s, "t": t}}
         elif name == "Bool":
             a = {"a": name, "arg": {"s": rnd.choice(used)}}
         elif name == "Arrow":
             nn = [s for s in used if h[s]]
             a = {"a": name, "arg": {"s": rnd.choice(nn or used)}}
         else:
-            # same-typed pairs here; comparisons across static types are judged on the replayed histories
-            s = rnd.choice(used)
-            same = [t for t in used if slots[t - 1] == slots[s - 1]]
-            a = {"a": "Compare", "arg": {"s": s, "t": rnd.choice(same)}}
+            a = {"a": "Compare", "arg": {"s": rnd.choice(used), "t": rnd.choice(used)}}     # same and mixed static types
         settle()
         acts.append(a)
     return acts
@@ -535,7 +582,8 @@ def run(chk, replay=None):
     quick = chk.tier == "quick"
     rnd = random.Random(chk.seed)
     chk.assumptions += [
-        "TLC explores the bounded instances completely (2 objects, 3 or 4 handle slots, <= 1 or 2 outstanding explicit references, <= 2 incarnations per object)",
+        "TLC explores the bounded instances completely (2 objects, 2 to 4 handle slots, <= 1 or 2 outstanding explicit references, <= 2 incarnations per object, one member handle per Derived object)",
+        "only code that holds a reference to an object (creator, pool handle, explicit reference) touches its member handle; unreachable cycles leak and are never destroyed (consistent with the statement)",
         "the driver's bookkeeping (which slot holds a handle, destructor log of the pointee types) is correct; object ids are recovered from pointers",
         "a moved-from handle may be empty, may keep a counted reference, or (plain move assignment) hold the destination's previous pointee; any of them must keep the books balanced",
         "concurrent executions are free-running: interleavings are sampled, judged at quiescent points and by stamp order, not enumerated",
@@ -545,13 +593,15 @@ def run(chk, replay=None):
 
     # 1. design level (the four TLC runs are independent: run them side by side)
     from concurrent.futures import ThreadPoolExecutor
-    jobs = [("RefCountMC", "RefCountMC.cfg" if quick else "RefCountMC_thorough.cfg", 16,
+    jobs = [("RefCountMC", "RefCountMC.cfg" if quick else "RefCountMC_thorough.cfg", 12,
              "conservation, alive iff referenced, no dangling handle, dies at last release, destroyed exactly once"),
+            ("RefCountMC", "RefCountMC_members.cfg" if quick else "RefCountMC_members_thorough.cfg", 12,
+             "the same with member handles (objects owning a handle, cascading destruction, assignment from a member of the target)"),
             ("RefCountConc", "RefCountConc.cfg" if quick else "RefCountConc_thorough.cfg", 8,
              "atomic inc/dec: conservation and single destruction under all interleavings"),
             ("RefCountConc", "RefCountConcSplit.cfg", 4, {"Conservation"}),
             ("RefCountConc", "RefCountConcSplit2.cfg", 4, {"NotWhileReferenced", "NoUseAfterFree"})]
-    with ThreadPoolExecutor(max_workers=4) as ex:
+    with ThreadPoolExecutor(max_workers=5) as ex:
         results = list(ex.map(lambda j: tla.run_tlc(os.path.join(SPEC, j[0] + ".tla"), os.path.join(SPEC, j[1]), workers=j[2], timeout=1500), jobs))
     chk.cov["negative_controls"] = []
     for (mod, cfg, _, what), r in zip(jobs, results):
@@ -568,55 +618,82 @@ def run(chk, replay=None):
 
     # 2. sequential part, code -> spec probe, then spec -> code
     exe = build.build("drv_refcount", san="address,undefined")
+    # the same driver without sanitizers, used with quarantined pointee storage: what the code computes after it destroyed
+    # an object too early is then observed as values (counts, destructor log, pointers) instead of ending in an abort
+    exe_plain = build.build("drv_refcount")
     policy = probe_policy(chk, exe)
     if policy is not None:
         chk.log("moved-from policy determined by TLC from the probe: %s" % policy)
         chk.cov["moved_from_policy"] = policy
-        # universes: (cfg, driver meta, budget for all histories up to K, random walks)
-        plan = [("RefCountGen.cfg", {"slots": "BBD", "objs": "BD", "maxexp": 1}, 45000 if quick else 1400000, 1500 if quick else 15000),
-                ("RefCountGen_BDD.cfg", {"slots": "BDD", "objs": "BD", "maxexp": 1}, 0, 1000 if quick else 10000)]
+        # universes: (cfg, driver meta, budget for all histories up to K, random walks, pointee storage modes)
+        flat = {"objs": "BD", "maxexp": 1, "members": False}
+        plan = [("RefCountGen.cfg", dict(flat, slots="BBD"), 45000 if quick else 1400000, 1500 if quick else 15000, ["free"]),
+                ("RefCountGen_BDD.cfg", dict(flat, slots="BDD"), 0, 1000 if quick else 10000, ["free"]),
+                # objects that own a handle: values with quarantined pointee storage, memory safety with really freed storage
+                ("RefCountGen_chain.cfg", {"slots": "BB", "objs": "DD", "maxexp": 0, "members": True}, 30000 if quick else 250000,
+                 1000 if quick else 10000, ["quarantine", "free"])]
         if not quick:
-            plan.append(("RefCountGen_BBDD.cfg", {"slots": "BBDD", "objs": "BD", "maxexp": 1}, 0, 10000))
+            plan.append(("RefCountGen_BBDD.cfg", dict(flat, slots="BBDD"), 0, 10000, ["free"]))
         chk.cov["generation"] = {}
         classes = set()
-        for cfg, meta, budget, walks in plan:
-            hs, cover, rw, info = gen_histories(chk, policy, budget, 6, walks=walks, walk_len=40, seed=chk.seed, tag="c08-gen-" + meta["slots"], cfg=cfg)
+        storm = False
+        for cfg, meta, budget, walks, modes in plan:
+            uni = meta["slots"] + "/" + meta["objs"]
+            hs, cover, rw, info = gen_histories(chk, policy, budget, 6, walks=walks, walk_len=40, seed=chk.seed, tag="c08-gen-" + meta["slots"] + meta["objs"], cfg=cfg)
             allh = hs + cover + rw
             chk.count_actions(allh)
             classes |= set((st["a"], st.get("cls")) for h in cover for st in h[-1:])
-            chk.cov["generation"][meta["slots"]] = info
-            # a first wave of 2000 sampled histories: if the code under test aborts in many of them (every abort costs a
-            # sanitizer report and a fresh child), the verdict is already established and the bulk is not run
-            pick = set(rnd.sample(range(len(allh)), min(2000, len(allh))))
-            rinfo = {"policy": policy, "universe": meta}
-            n1, wall1 = replay_parallel(chk, exe, [allh[i] for i in sorted(pick)], "c08-seq-" + meta["slots"] + "-w1", API, isolate=100,
-                                        meta=meta, replay_info=rinfo)
-            if chk.cov.get("crashes_in_replay", 0) > 150:
-                chk.note("slots=%s: %d of the first %d replayed histories ended in a sanitizer abort; remaining histories not run"
-                         % (meta["slots"], chk.cov["crashes_in_replay"], len(pick)))
+            chk.cov["generation"][uni] = info
+            for mode in modes:
+                if len(modes) > 1 and mode == "free":
+                    allh = cover + rw      # the second pass looks for memory errors: one history per transition and the walks
+                dmeta = dict(meta, quarantine=(mode == "quarantine"))
+                tag = "c08-seq-%s%s-%s" % (meta["slots"], meta["objs"], mode)
+                # a first wave of 2000 sampled histories: if the code under test aborts in many of them (every abort costs a
+                # sanitizer report and a fresh child), the verdict is already established and the bulk is not run
+                pick = set(rnd.sample(range(len(allh)), min(2000, len(allh))))
+                rinfo = {"policy": policy, "universe": dmeta}
+                drv = exe_plain if mode == "quarantine" else exe
+                n1, wall1, c1 = replay_parallel(chk, drv, [allh[i] for i in sorted(pick)], tag + "-w1", API, isolate=100, meta=dmeta, replay_info=rinfo)
+                if c1 > 150:
+                    chk.note("%s (%s): %d of the first %d replayed histories ended in a sanitizer abort; remaining histories not run"
+                             % (uni, mode, c1, len(pick)))
+                    storm = True
+                    break
+                rest = [allh[i] for i in range(len(allh)) if i not in pick]
+                n, wall, _ = replay_parallel(chk, drv, rest, tag, API, isolate=500, meta=dmeta, replay_info=rinfo)
+                chk.log("IntrusivePtr %s (%s storage): %d histories replayed (%d mismatching) in %.1fs" % (uni, mode, len(allh), n + n1, wall + wall1))
+            if storm:
                 break
-            rest = [allh[i] for i in range(len(allh)) if i not in pick]
-            n, wall = replay_parallel(chk, exe, rest, "c08-seq-" + meta["slots"], API, isolate=500, meta=meta, replay_info=rinfo)
-            n, wall = n + n1, wall + wall1
-            chk.log("IntrusivePtr slots=%s: %d histories replayed (%d mismatching) in %.1fs" % (meta["slots"], len(allh), n, wall))
-            chk.cov["distinct_nontrivial"] += adtcheck._nontrivial_distinct(allh, MUTATORS)
+            chk.cov["distinct_nontrivial"] += adtcheck._nontrivial_distinct(allh, MUTATORS | MEMBER_ACTIONS)
             if meta["slots"] == "BBD":
                 chk.add_sample({"kind": "history", "object": "IntrusivePtr<Base>/<Derived>", "steps": cover[len(cover) // 2]})
-        storm = chk.cov.get("crashes_in_replay", 0) > 150
+            if meta["members"]:
+                walk = [h for h in cover if h[-1]["a"] == "CopyAssignFromMember" and h[-1].get("cls") == WALK_CLASS]
+                if walk:
+                    chk.add_sample({"kind": "history", "object": "chain walk cur = cur->next on the last reference", "steps": min(walk, key=len)})
         if not storm:
-            chk.require_actions(sorted(MUTATORS | {"Bool", "Arrow", "Compare"}))
+            chk.require_actions(sorted(MUTATORS | MEMBER_ACTIONS | {"Bool", "Arrow", "Compare"}))
         need = [("CopyAssign", "self,obj"), ("MoveAssign", "self,obj"), ("RawAssign", "arg=null,dst=obj"), ("MoveAssign", "src=null,dst=obj"),
                 ("ConvCopyCtor", "src=obj,dst=new"), ("Dtor", "obj,kills"), ("CreatorDrop", "last,kills"), ("RefDec", "last,kills"),
-                ("Compare", "types=mixed,different-objects"), ("Compare", "types=same,different-objects")]
+                ("Compare", "types=mixed,different-objects"), ("Compare", "types=same,different-objects"),
+                # the handle assigned from lives inside the object whose last reference the assignment releases
+                ("CopyAssignFromMember", WALK_CLASS), ("MoveAssignFromMember", WALK_CLASS),
+                ("CopyAssignFromMember", "src=member-of-dst-target,next=null,last-ref,kills"),
+                ("SetMember", "val=self,old=null"), ("Dtor", "obj,kills")]
         missing = [c for c in need if c not in classes]
         if missing and not storm:
             raise InfraError("vacuity guard: input classes never generated: %s" % missing)
         chk.cov["input_classes_covered"] = len(classes)
+        chk.cov["cascades_generated"] = sum(1 for a, c in classes if c and c.endswith(",kills"))
 
     # 3. code -> spec: random long executions over the larger universe
     nexec = 24 if quick else 240
     acts = [rand_actions(rnd, 300, TRACE_META, policy) for _ in range(nexec)]
-    acc, rej, rexecs = record_validate(chk, exe, acts, "c08-rand", API, isolate=4, meta=TRACE_META)
+    half = nexec // 2          # first half with quarantined pointee storage (values), second half with freed storage (ASan)
+    acc, rej, rexecs = record_validate(chk, exe_plain, acts[:half], "c08-rand-quarantine", API, isolate=4, meta=dict(TRACE_META, quarantine=True))
+    acc2, rej2, rexecs2 = record_validate(chk, exe, acts[half:], "c08-rand-free", API, isolate=4, meta=dict(TRACE_META, quarantine=False))
+    rej, rexecs = rej + rej2, rexecs + rexecs2
     tstat = {"performed": {}, "refused": 0, "destructions": 0}
     for ev in rexecs:
         for e in ev:
@@ -628,7 +705,7 @@ def run(chk, replay=None):
                 tstat["destructions"] += len(o.get("died", []))
     chk.cov["recorded_executions"] = tstat
     if not rej:
-        lacking = [a for a in sorted(MUTATORS | {"Compare"}) if tstat["performed"].get(a, 0) < 3]
+        lacking = [a for a in sorted(MUTATORS | MEMBER_ACTIONS | {"Compare"}) if tstat["performed"].get(a, 0) < 3]
         if lacking or tstat["destructions"] < 3:
             raise InfraError("vacuity guard: recorded random executions performed too few of %s (destructions: %d)" % (lacking, tstat["destructions"]))
         corruption_guard(chk, rexecs, rnd)
@@ -662,10 +739,10 @@ def do_replay(chk, path):
     rep = json.load(open(path))
     kind = rep["kind"]
     if kind == "history":
-        exe = build.build("drv_refcount", san="address,undefined")
+        exe = build.build("drv_refcount", san="" if (rep.get("meta") or {}).get("quarantine") else "address,undefined")
         replay_parallel(chk, exe, [rep["history"]], "replay", rep["sig_prefix"], isolate=1, meta=rep.get("meta"), replay_info=rep.get("info"))
     elif kind == "trace":
-        exe = build.build("drv_refcount", san="address,undefined")
+        exe = build.build("drv_refcount", san="" if (rep.get("meta") or {}).get("quarantine") else "address,undefined")
         record_validate(chk, exe, [rep["actions"]], "replay", rep["sig_prefix"], isolate=1, meta=rep.get("meta"))
     elif kind == "burst":
         # a concurrent execution is itself the evidence: re-validate the recorded events, then run the configuration again
